@@ -113,6 +113,12 @@ func checkOplogStep(e *Env, c *CommitRec) *Violation {
 	}
 	for _, ev := range appended {
 		ts, _ := eventTS(ev)
+		if !c.CallWall.IsZero() {
+			if e.eventWall == nil {
+				e.eventWall = map[primitive.Timestamp]time.Time{}
+			}
+			e.eventWall[ts] = c.CallWall
+		}
 		if e.maxTS != (primitive.Timestamp{}) && !tsLess(e.maxTS, ts) {
 			key := ""
 			if e.tsEpoch != c.Epoch {
@@ -236,6 +242,13 @@ func checkRetention(e *Env, c *CommitRec, full []bson.D, d int) *Violation {
 	// can only keep an event longer than its exact age demands, never shorter - an event removed by the age
 	// clause is at least minAge old by the highest clock reading the library can have seen
 	ageHi := func(i int) time.Duration {
+		if ts, ok := eventTS(full[i]); ok {
+			if w, ok := e.eventWall[ts]; ok {
+				// the harness's own reading, taken when the call that created the event was invoked: the event
+				// is no older than this, whatever its fields say
+				return hi.Sub(w)
+			}
+		}
 		if w, ok := model.Get(full[i], "wallTime").(primitive.DateTime); ok {
 			return hi.Sub(w.Time())
 		}
@@ -256,8 +269,16 @@ func checkRetention(e *Env, c *CommitRec, full []bson.D, d int) *Violation {
 		}
 	}
 	if d < len(full) {
-		unprotected := d < len(full)-minSize && (minAge == 0 || age(d) > minAge+tol)
-		beyond := d < len(full)-maxSize || age(d) > maxAge+tol
+		// the statement does not say which clock measures an age. After a backwards step the wall clock makes an
+		// event younger than the log's own notion of time (which never runs backwards) does: only what is overdue
+		// under both readings is demanded
+		lo := age(d)
+		ts, _ := eventTS(full[d])
+		if raw := c.WallIn.Sub(time.Unix(int64(ts.T), 0)); raw < lo {
+			lo = raw
+		}
+		unprotected := d < len(full)-minSize && (minAge == 0 || lo > minAge+tol)
+		beyond := d < len(full)-maxSize || lo > maxAge+tol
 		if unprotected && beyond {
 			return violation("C08", "retention-not-applied", "", fmt.Sprintf("commit %d: oldest remaining event (index %d of %d, age %v) is beyond max size %d / max age %v and not protected by min size %d / min age %v", c.Seq, d, len(full), age(d), maxSize, maxAge, minSize, minAge))
 		}
